@@ -126,11 +126,23 @@ def histories():
         await L.op({"kind": "append", "box": "INBOX"}, w.op_append(a, "INBOX"))
         await L.op({"kind": "noop", "box": "INBOX"}, w.op_noop(a))
 
+    async def h_expunge_small(w, L, rnd):
+        """Short history around one EXPUNGE of non-adjacent messages: every kill
+        point is explored, and mail is always delivered while the server is down
+        (so that the folder does not look smaller than recorded)."""
+        a = w.session()
+        for i in range(5):
+            await L.op({"kind": "append", "box": "INBOX"}, w.op_append(a, "INBOX", flags=[None, ["\\Seen"], ["\\Flagged"], None, ["kw1"]][i]))
+        await L.op({"kind": "select", "box": "INBOX"}, w.op_select(a, "INBOX"))
+        await L.op({"kind": "store", "box": "INBOX"}, w.op_store(a, [1, 3], "add", ["\\Deleted"]))
+        await L.op({"kind": "expunge", "box": "INBOX"}, w.op_expunge(a))
+        await L.op({"kind": "noop", "box": "INBOX"}, w.op_noop(a))
+
     async def h_startup_only(w, L, rnd):
         L.send({"kind": "noop"})
         L.done(w)
 
-    return {"messages": h_messages, "namespace": h_copy_move_namespace, "inboxpack": h_rename_inbox_pack_delivery, "startup": h_startup_only}
+    return {"messages": h_messages, "namespace": h_copy_move_namespace, "inboxpack": h_rename_inbox_pack_delivery, "startup": h_startup_only, "expunge": h_expunge_small}
 
 
 class OpLog:
